@@ -46,6 +46,13 @@ def plan(tier, seed):
     for n in range(3, n2 + 1):
         for pi, par in enumerate(E2.parent_vectors(n)):
             tasks.append(("two-centres", ("two", n, pi, r2)))
+    nl = 6 if thorough else 5
+    scopes.append({"name": "lenient-centres", "n_max": nl, "r_max": 2, "r_min": 1, "tags": ["[C@]", "[C@@H]"],
+                   "desc": "one centre at every position in every non-standard spelling the encoder accepts (ring digits "
+                           "after the k-th branch, trailing parenthesised branches)", "table": RELAXED})
+    for n in range(3, nl + 1):
+        for pi, par in enumerate(E2.parent_vectors(n)):
+            tasks.append(("lenient-centres", ("lenient", n, pi)))
     scopes.append({"name": "acyclic-centres", "n_max": 6, "desc": "no rings: every position, 4 tags (no inversion expected)",
                    "table": "default"})
     tasks.append(("acyclic-centres", ("acyc", 6)))
@@ -76,12 +83,12 @@ def use(table):
         _CUR[0] = key
 
 
-def check(smi, table, r):
+def check(smi, table, r, tolerant=False):
     use(table)
     r.evaluations += 1
     r.transitions += 1
     try:
-        ain = smiread.read_smiles(smi, ring_across_dot=False)
+        ain = smiread.read_smiles(smi, tolerant=tolerant, ring_across_dot=False)
     except smiread.SmiError:
         r.cov["generated form outside the reader's strict grammar"] += 1
         return None
@@ -147,6 +154,19 @@ def run(task):
                                 at[i], at[j] = ti, tj
                                 smi = E2.write(n, par, rings, at, bt, scheme=sc, digit_perm=dp)
                                 last = (smi, check(smi, RELAXED, r))
+    elif kind == "lenient":
+        _, n, pi = arg
+        par = list(E2.parent_vectors(n))[pi]
+        bt = [""] * n
+        for rings in E2.ring_sets(n, par, 2, 1):
+            r.states += 1
+            for ds, pl in E2.lenient_variants(n, par, rings):
+                for i in range(n):
+                    for tag in ("[C@]", "[C@@H]"):
+                        at = ["C"] * n
+                        at[i] = tag
+                        smi = E2.write(n, par, rings, at, bt, digit_slot=ds, paren_last=pl)
+                        last = (smi, check(smi, RELAXED, r, tolerant=True))
     elif kind == "acyc":
         for n in range(1, arg[1] + 1):
             for par in E2.parent_vectors(n):
